@@ -99,6 +99,15 @@ func runC13(r *Rng, n int, tier string) {
 			p.Overrides = append(p.Overrides, `{"db_type":"text","go_type":"github.com/example/custom.Text"}`, `{"db_type":"pg_catalog.int8","go_type":"github.com/other/big.Int","nullable":true}`)
 			p.Opts["emit_json_tags"] = true
 			p.Opts["emit_db_tags"] = true
+			if p.RawSchema == "" && engine == "postgresql" && r.Bool() {
+				// several overrides that all match one column (by column under two spellings, by type): which
+				// one applies is decided by their order in the configuration, on every run
+				t0 := p.Tables[0].Name
+				p.Overrides = append(p.Overrides,
+					fmt.Sprintf(`{"column":"%s.id","go_type":"github.com/example/custom.ByName"}`, t0),
+					fmt.Sprintf(`{"column":"public.%s.id","go_type":"github.com/example/custom.ByQualifiedName"}`, t0),
+					`{"db_type":"pg_catalog.int8","go_type":"github.com/other/big.Wide"}`)
+			}
 		}
 		twin := false
 		if p.RawSchema == "" && (i%4 == 1 || r.Chance(20)) {
